@@ -114,7 +114,12 @@ InitState(engine) ==
     nops      |-> 0,            \* number of operator evaluations so far (observation)
     logOps    |-> FALSE,        \* trace validation only: keep the operator evaluations of the current rule
     ops       |-> << >>,        \* [var, key, val, m] per operator evaluation of the current rule
-    guide     |-> << >> ]       \* trace validation only: the logged operator evaluations of the current
+    guide     |-> << >>,
+    cacheOn   |-> FALSE,        \* EngineCache layer: share transformation results between rules of a phase
+    cache     |-> {},           \* set of [k, v]: k = CacheKey(...), v = transformed value
+    unsound   |-> FALSE,
+    cacheKeyDesign |-> "positional" ]       \* history: some operator evaluation received a value other than the rule's
+                                \* own transformation of the datum it was looking at (C12)       \* trace validation only: the logged operator evaluations of the current
                                 \* rule; the order in which each target's data is walked is read off it
 
 TxGet(st, k) ==
@@ -335,25 +340,62 @@ MatchVariable(st, d) ==
   LET name == VarName(d.var, d.key) IN
   [st EXCEPT !.mvar = d.val, !.mvarName = name, !.mvars = Append(@, [n |-> name, v |-> d.val])]
 
+(***************************************************************************)
+(* EngineCache layer (rule.go transformArg, rulegroup.go transformationKey) *)
+(* The per-phase cache maps CacheKey(datum, position, prefix of the         *)
+(* transformation list) to the transformed value.  The key design is this  *)
+(* one operator; everything else follows the code: longest cached prefix   *)
+(* first, every intermediate step is stored, TX is never cached, the cache *)
+(* is emptied when a phase starts.                                         *)
+(*   as implemented at the pinned commit: <<key, position, variable, prefix>> *)
+(*   (the identity of the key STRING and the index of the datum in the     *)
+(*   list its target produced - not the identity of the value)             *)
+(***************************************************************************)
+CacheKeyPositional(d, pos, prefix) == <<d.key, pos, d.var, prefix>>
+CacheKeyByValue(d, pos, prefix)    == <<d.key, d.val, d.var, prefix>>
+CacheKey(st, d, pos, prefix) ==
+  IF st.cacheKeyDesign = "positional" THEN CacheKeyPositional(d, pos, prefix) ELSE CacheKeyByValue(d, pos, prefix)
+
+CachedTf(st, link, d, pos) ==          \* returns [st, v]
+  IF link.tfs = << >> THEN [st |-> st, v |-> d.val]
+  ELSE IF d.var = "TX" \/ ~st.cacheOn THEN [st |-> st, v |-> Tf(link.tfs, d.val)]
+  ELSE LET n     == Len(link.tfs)
+           K(i)  == CacheKey(st, d, pos, SubSeq(link.tfs, 1, i))
+           hits  == {i \in 1..n : \E e \in st.cache : e.k = K(i)}
+           start == IF hits = {} THEN 0 ELSE CHOOSE i \in hits : \A j \in hits : j <= i
+           v0    == IF start = 0 THEN d.val ELSE (CHOOSE e \in st.cache : e.k = K(start)).v
+           fills == {[k |-> K(i), v |-> Tf(SubSeq(link.tfs, start + 1, i), v0)] : i \in (start + 1)..n}
+           v     == IF start = n THEN v0 ELSE Tf(SubSeq(link.tfs, start + 1, n), v0)
+       IN [st |-> [st EXCEPT !.cache = {e \in @ : ~(\E f \in fills : f.k = e.k)} \cup fills,
+                             !.unsound = @ \/ (v # Tf(link.tfs, d.val))],
+           v  |-> v]
+
+\* the operator is tried on every value of `vs` (one value, or the multiMatch sequence) of datum d
+RECURSIVE EvalSeen(_, _, _, _, _)
+EvalSeen(st, link, d, vs, md) ==
+  IF vs = << >> THEN [st |-> st, md |-> md]
+  ELSE LET v   == Head(vs)
+           hit == OpMatches(st, link.op, v)
+           st0 == [st EXCEPT !.nops = @ + 1,
+                             !.ops = IF st.logOps
+                                       THEN Append(@, [var |-> d.var, key |-> d.key, val |-> v, m |-> hit])
+                                       ELSE @]
+       IN IF hit
+            THEN LET dm  == Datum(d.var, d.key, v)
+                     st1 == MatchVariable(st0, dm)
+                     st2 == RunActs(st1, link.acts)
+                 IN EvalSeen(st2, link, d, Tail(vs), Append(md, dm))
+            ELSE EvalSeen(st0, link, d, Tail(vs), md)
+
 RECURSIVE EvalVals(_, _, _, _, _)
-\* data: remaining selected data of the current target; seenq: remaining values to try for Head(data)
-EvalVals(st, link, data, seenq, md) ==
-  IF data = << >> THEN [st |-> st, md |-> md]
-  ELSE IF seenq = << >>
-    THEN IF Len(data) = 1 THEN [st |-> st, md |-> md]
-         ELSE EvalVals(st, link, Tail(data), Seen(link, data[2].val), md)
-    ELSE LET v   == Head(seenq)
-             hit == OpMatches(st, link.op, v)
-             st0 == [st EXCEPT !.nops = @ + 1,
-                               !.ops = IF st.logOps
-                                         THEN Append(@, [var |-> Head(data).var, key |-> Head(data).key, val |-> v, m |-> hit])
-                                         ELSE @]
-         IN IF hit
-              THEN LET d   == Datum(Head(data).var, Head(data).key, v)
-                       st1 == MatchVariable(st0, d)
-                       st2 == RunActs(st1, link.acts)
-                   IN EvalVals(st2, link, data, Tail(seenq), Append(md, d))
-              ELSE EvalVals(st0, link, data, Tail(seenq), md)
+\* data: the selected data of the current target in walking order; pos: 1-based position
+EvalVals(st, link, data, pos, md) ==
+  IF pos > Len(data) THEN [st |-> st, md |-> md]
+  ELSE LET d   == data[pos]
+           c   == IF link.mm THEN [st |-> st, vs |-> <<d.val>> \o MMVals(link.tfs, d.val)]   \* multiMatch bypasses the cache
+                  ELSE LET r == CachedTf(st, link, d, pos - 1) IN [st |-> r.st, vs |-> <<r.v>>]
+           res == EvalSeen(c.st, link, d, c.vs, md)
+       IN EvalVals(res.st, link, data, pos + 1, res.md)
 
 \* trace validation: walk the selected data in the order in which the log shows them evaluated
 \* (the iteration order of a map is chosen anew by the runtime at every walk)
@@ -372,8 +414,7 @@ EvalTargets(st, req, ord, rxMode, rid, link, tgts, md) ==
   IF tgts = << >> THEN [st |-> st, md |-> md]
   ELSE LET data0 == SelectData(st, req, ord, rxMode, rid, Head(tgts))
            data == IF st.guide # << >> THEN ReorderByLog(link, data0, st.guide, Len(st.ops) + 1) ELSE data0
-           res  == IF data = << >> THEN [st |-> st, md |-> md]
-                   ELSE EvalVals(st, link, data, Seen(link, data[1].val), md)
+           res  == EvalVals(st, link, data, 1, md)
        IN EvalTargets(res.st, req, ord, rxMode, rid, link, Tail(tgts), res.md)
 
 EvalLink(st, req, ord, rxMode, rid, link) ==
@@ -432,7 +473,7 @@ StepRule(st, req, ord, rxMode, r, p) ==
 
 \* residual flow state never crosses a phase boundary, except allow in its documented scope
 EndPhase(st, p) ==
-  [st EXCEPT !.skip = 0, !.skipAfter = "",
+  [st EXCEPT !.skip = 0, !.skipAfter = "", !.cache = {},     \* the cache never outlives its phase
              !.allow = IF @ = "phase" \/ (@ = "request" /\ p >= 2) THEN "unset" ELSE @]
 
 RECURSIVE RunRules(_, _, _, _, _, _, _)
